@@ -166,7 +166,7 @@ func c16Docs(c *ctx, w *world, n int) []c16doc {
 			`"camliType":"claim","claimDate":"2011-02-03T04:05:06Z","attribute":"tag","value":"v` + fmt.Sprint(i) + `"`,
 			`"camliSig":"look-alike-key"`,
 			`"note":",\"camliSig\":\"escaped look-alike"`,
-			`"esc":","camliSig":""`,
+			`"esc":"a\u002c\"camliSig\":\"b"`,
 			`"n":` + fmt.Sprint(c.rng.Int63()),
 			`"empty":"","arr":[]`,
 		}
